@@ -40,6 +40,7 @@ def run(ctx):
     # multi-loop graphs at strongly hierarchical points (sub-graphs with small degree of divergence make the parameters span many decades)
     ss += S.generate(ctx, 6 if ctx.quick else 40, 6, max_e=5, max_loops=3, routings_per_graph=1, kinds=("corner", "corner", "tiny_xi"),
                      names=["sunrise", "banana4", "double_triangle", "bubble_chain", "kite"])
+    ss += S.generate(ctx, 2 if ctx.quick else 6, 6, max_e=8, max_loops=7, routings_per_graph=2, names=["banana8"], kinds=("uniform", "corner"))
     S.run(ss)
     SC.corr_sample(ctx, ss)
     SC.generic_scalar_guard(ctx, ss[:: 7], k=8)
